@@ -385,6 +385,22 @@ func c18R2(c *Ctx, r *Report) {
 			if s0.Low == nil || s0.High != nil || !isLen || calleeNameSSA(&lc.Call) != "builtin.len" || k != 11 {
 				problems = append(problems, fmt.Sprintf("first digest operand starts at %v%+d, the SIG RDATA starts at len(packed message)+11", base, k))
 			}
+			// the RDATA operand ends where PackRR stopped writing, not at the end of the (larger) buffer
+			isPackOff := func(v ssa.Value) bool {
+				e, ok := v.(*ssa.Extract)
+				if !ok || e.Index != 0 {
+					return false
+				}
+				call, ok := e.Tuple.(*ssa.Call)
+				return ok && calleeNameSSA(&call.Call) == "PackRR"
+			}
+			bounded := s0.High != nil && isPackOff(s0.High)
+			if inner, ok := s0.X.(*ssa.Slice); ok && inner.High != nil && isPackOff(inner.High) {
+				bounded = true
+			}
+			if !bounded {
+				problems = append(problems, "the SIG RDATA operand runs to the end of the buffer instead of the offset PackRR returned: whenever the buffer is longer than the packed message plus SIG (a compressed message), padding octets are signed and the signature never verifies")
+			}
 			if s1.Low != nil || s1.High == nil {
 				problems = append(problems, "second digest operand is not buf[:len(packed message)]")
 			} else if hc, ok := s1.High.(*ssa.Call); !ok || calleeNameSSA(&hc.Call) != "builtin.len" {
